@@ -390,6 +390,31 @@ def r15_values_written_through_guard(chk: Check):
     r1_mutator_guards(chk)
 
 
+
+def r16_known_gaps(chk: Check):
+    """Two encodings that let different signatures share an identifier (found by review, demonstrated, not repaired: both repairs change
+    released identifiers).  The rule describes the construct; the verdict is a finding kept in known_findings.json"""
+    tree = chk.tree
+    up = tree.func("core.objects", "HashComputer.update")
+    fi = tree.func("core.objects", "ConfigInformation.identifiers")
+    # (1) the producing task of an embedded output is hashed by its raw identifier; init tasks enter only the submitted task's own full identifier
+    task_raw = any(isinstance(c, ast.Call) and src(c) == "self.update(value.__xpm__.task)" for c in ast.walk(up.node))
+    init_loops = [x for x in body_walk(fi.node) if isinstance(x, ast.For) and "init_tasks" in src(x.iter)]
+    crossing = any("collect" in src(x.iter) for x in init_loops)
+    chk.require(not (task_raw and init_loops and not crossing), chk.fkey(up, "producing task hashed without its init tasks"),
+                "an embedded task output is hashed with the raw identifier of the task that produced it, and init tasks enter only the full identifier of the task they were submitted with "
+                "(pre-tasks are collected across task links, init tasks are not): Evaluate(model=out) gets one identifier whether `out` comes from Learn.submit(init_tasks=[A]) or [B]",
+                chk.loc(up.module, up.node))
+    # (2) a dict is written without length or end marker; with a Union-typed value (int | dict) an entry can move between a nested dict and its parent
+    m, br, f, loc = _model(chk)
+    dict_terms = [it for t in dict(br).get("dict", []) for it in t]
+    has_len = any(it[0] == "emit" and it[1][0] == "pack" for it in dict_terms)
+    union = "core.types:UnionType.validate" in tree.funcs
+    chk.require(has_len or not union, chk.fkey(up, "dict unterminated under Union-typed values"),
+                "a dict is encoded as DICT tag + items with neither a length nor an end marker, and UnionType lets a dict value be `int | Dict[...]`: "
+                "{'optim': {'batch': 8}, 'seed': 2} and {'optim': {'batch': 8, 'seed': 2}} (two levels, plain text) have the same byte stream", loc)
+
+
 RULES = [
     ("R1", "tags are pairwise distinct single bytes below 0x20; each value kind starts with its own tag; NAME is not a value tag", r1_tags),
     ("R2", "scalar payloads are lossless (int: 64-bit integer pack, float: double, str: utf-8 of the whole text)", r2_scalars),
@@ -406,4 +431,5 @@ RULES = [
     ("R14", "the pre-tasks entering the full identifier are collected through task links as well (a pre-task of an upstream task is part of what is executed)", r14_pretasks_cross_tasks),
     ("R15", "parameter values are written only through the seal-guarded mutators: no write can change a value after its identifier was cached (= C14.R1)", r15_values_written_through_guard),
     ("R9", "no framing conflict (FIRST/FOLLOW of variable-length constructs) outside the two domain exclusions of the property", r9_framing),
+    ("R16", "known encoding gaps (findings kept in known_findings.json): producing task hashed without its init tasks; unterminated dict reachable at two levels through Union-typed values", r16_known_gaps),
 ]
